@@ -474,7 +474,12 @@ func opRound(r *ledger.Runner, st sim.Step) {
 	gen := r.BC.Miner
 	pay := func(from string, round int64) *ledger.Outcome {
 		if hook := selectionHook(r); hook != nil {
-			hook(from, round)
+			if hook(from, round) {
+				// the selection this payFees makes is not a function of its inputs (reported): not submitted,
+				// so that the run stays a function of the plan
+				w.Tr.Event("payFees not submitted")
+				return nil
+			}
 		}
 		return a.submit(from, "payFees", fmt.Sprintf(`{"round":%d}`, round), 0)
 	}
@@ -567,7 +572,7 @@ func opStake(r *ledger.Runner, st sim.Step) {
 // ---- per-run registry of agents (keyed by runner) ---------------------------------------------------
 
 var agentReg = map[*ledger.Runner]*vcAgents{}
-var selHooks = map[*ledger.Runner]func(from string, round int64){}
+var selHooks = map[*ledger.Runner]func(from string, round int64) bool{}
 
 func agentsOf(r *ledger.Runner) *vcAgents {
 	a, ok := agentReg[r]
@@ -578,6 +583,6 @@ func agentsOf(r *ledger.Runner) *vcAgents {
 	return a
 }
 
-func selectionHook(r *ledger.Runner) func(from string, round int64) { return selHooks[r] }
+func selectionHook(r *ledger.Runner) func(from string, round int64) bool { return selHooks[r] }
 
 var _ = sort.Strings
